@@ -1,9 +1,192 @@
-import ModVerif.Drv.Util
-namespace ModVerif.Drv.Modfile
-open ModVerif ModVerif.Drv
+/-
+  Driver module for the go.mod / go.work lexer, parser, printer and directive layer (C20, C02).
+  No logic: decode, call the model, encode.  Canonical dumps:
 
-/-- stub: no ops modelled yet -/
+    pos        L.C.B
+    comment    pos~hex(token)~0|1
+    comments   b[c,c]s[c,c]a[c,c]
+    line       L(id;start;end;inBlock;tok,tok;comments)
+    block      B(start;tok,tok;lparen-pos;lparen-comments;rparen-pos;rparen-comments;comments;line|line)
+    cblock     C(start;comments)
+    file       ok F(comments) stmt stmt …      /   err L.C.B kind
+    typed      ok mod=… go=… tc=… gd=[…] req=[…] exc=[…] rep=[…] ret=[…] tool=[…] fmt=hex(Format(f.Syntax))
+               /  err L.C.B:kind;L.C.B:kind
+-/
+import ModVerif.Drv.Util
+import ModVerif.Model.Modfile.Work
+namespace ModVerif.Drv.Modfile
+open ModVerif ModVerif.Drv ModVerif.Modfile
+
+def showPos (p : Position) : String := s!"{p.line}.{p.lineRune}.{p.byte}"
+
+def showComment (c : Comment) : String := s!"{showPos c.start}~{xh c.token}~{if c.suffix then "1" else "0"}"
+
+def showCommentList (l : List Comment) : String := "[" ++ ",".intercalate (l.map showComment) ++ "]"
+
+def showComments (c : Comments) : String :=
+  s!"b{showCommentList c.before}s{showCommentList c.suffix}a{showCommentList c.after}"
+
+def showLine (l : Line) : String :=
+  s!"L({l.id};{showPos l.start};{showPos l.end};{if l.inBlock then "1" else "0"};{xhList l.token};{showComments l.comments})"
+
+def showExpr : Expr → String
+  | .commentBlock x => s!"C({showPos x.start};{showComments x.comments})"
+  | .line l => showLine l
+  | .lineBlock b =>
+    s!"B({showPos b.start};{xhList b.token};{showPos b.lparen.pos};{showComments b.lparen.comments};{showPos b.rparen.pos};{showComments b.rparen.comments};{showComments b.comments};{"|".intercalate (b.lines.map showLine)})"
+  | .lparen x => s!"LP({showPos x.pos};{showComments x.comments})"
+  | .rparen x => s!"RP({showPos x.pos};{showComments x.comments})"
+
+def showFile (f : FileSyntax) : String :=
+  " ".intercalate (s!"ok F({showComments f.comments})" :: f.stmts.map showExpr)
+
+def synKindName : SynErrKind → String
+  | .blockComment => "block-comment"
+  | .eofInString => "eof-in-string"
+  | .newlineInString => "newline-in-string"
+  | .badChar => "bad-char"
+  | .unterminatedBlock => "unterminated-block"
+  | .afterRParen => "after-rparen"
+  | .internal .readRuneAtEOF => "internal-readrune"
+  | .internal .parseLineAtEOL => "internal-parseline"
+  | .internal .fuel => "internal-fuel"
+
+def ruleKindName : RuleErrKind → String
+  | .syn k => "syn-" ++ synKindName k
+  | .unknownBlock => "unknown-block"
+  | .unknownDirective => "unknown-directive"
+  | .repeatedGo => "repeated-go"
+  | .goArgs => "go-args"
+  | .invalidGoVersion => "invalid-go-version"
+  | .repeatedToolchain => "repeated-toolchain"
+  | .toolchainArgs => "toolchain-args"
+  | .invalidToolchain => "invalid-toolchain"
+  | .repeatedModule => "repeated-module"
+  | .moduleUsage => "module-usage"
+  | .invalidQuotedString => "invalid-quoted-string"
+  | .godebugUsage => "godebug-usage"
+  | .requireUsage => "require-usage"
+  | .versionString => "version-string"
+  | .versionNotCanonical => "version-not-canonical"
+  | .fixError => "fix-error"
+  | .fixModuleError => "fix-module-error"
+  | .invalidModulePath => "invalid-module-path"
+  | .pathMajorMismatch => "path-major-mismatch"
+  | .replaceUsage => "replace-usage"
+  | .replaceAtVersion => "replace-at-version"
+  | .replaceNeedsDir => "replace-needs-dir"
+  | .replaceWindowsPath => "replace-windows-path"
+  | .replaceDirWithVersion => "replace-dir-with-version"
+  | .intervalStart => "interval-start"
+  | .intervalAfterLBracket => "interval-after-lbracket"
+  | .intervalComma => "interval-comma"
+  | .intervalAfterComma => "interval-after-comma"
+  | .intervalRBracket => "interval-rbracket"
+  | .tokenAfterVersion => "token-after-version"
+  | .toolArgs => "tool-args"
+  | .useUsage => "use-usage"
+  | .retractNoModule => "retract-no-module"
+
+def showSynErr (e : SynErr) : String := s!"err {showPos e.pos} {synKindName e.kind}"
+
+def showRuleErrs (l : List RuleErr) : String :=
+  "err " ++ ";".intercalate (l.map fun e => s!"{showPos e.pos}:{ruleKindName e.kind}")
+
+def brackets (l : List String) : String := "[" ++ ",".intercalate l ++ "]"
+
+def showMV (m : ModVersion) : String := s!"{xh m.path}/{xh m.version}"
+
+def showGodebugs (l : List Godebug) : String := brackets (l.map fun g => s!"{xh g.key}/{xh g.value}/{g.lineId}")
+
+def showReplaces (l : List Replace) : String := brackets (l.map fun r => s!"{showMV r.old}/{showMV r.new}/{r.lineId}")
+
+def showGo : Option Go → String
+  | none => "-"
+  | some g => s!"{xh g.version}/{g.lineId}"
+
+def showToolchain : Option Toolchain → String
+  | none => "-"
+  | some t => s!"{xh t.name}/{t.lineId}"
+
+def showTypedFile (f : File) : String :=
+  let m := match f.module with
+    | none => "-"
+    | some m => s!"{showMV m.mod}/{xh m.deprecated}/{m.lineId}"
+  s!"ok mod={m} go={showGo f.go} tc={showToolchain f.toolchain} gd={showGodebugs f.godebug} " ++
+  s!"req={brackets (f.require.map fun r => s!"{showMV r.mod}/{showBool r.indirect}/{r.lineId}")} " ++
+  s!"exc={brackets (f.exclude.map fun r => s!"{showMV r.mod}/{r.lineId}")} " ++
+  s!"rep={showReplaces f.replace} " ++
+  s!"ret={brackets (f.retract.map fun r => s!"{xh r.interval.low}/{xh r.interval.high}/{xh r.rationale}/{r.lineId}")} " ++
+  s!"tool={brackets (f.tool.map fun t => s!"{xh t.path}/{t.lineId}")} " ++
+  s!"fmt={xh (format f.syn)}"
+
+def showWorkFile (f : WorkFile) : String :=
+  s!"ok go={showGo f.go} tc={showToolchain f.toolchain} gd={showGodebugs f.godebug} " ++
+  s!"use={brackets (f.use.map fun u => s!"{xh u.path}/{xh u.modulePath}/{u.lineId}")} " ++
+  s!"rep={showReplaces f.replace} " ++
+  s!"fmt={xh (format f.syn)}"
+
+def fixOf (s : String) : Option (Option Fixer) :=
+  if s == "nofix" then some none else if s == "stub" then some (some fixStub) else none
+
+def fileName : Bytes := B "go.mod"
+
 def handle : Handler
+  | "parsesyntax", [d] => do
+    let d ← hx d
+    pure (match parse fileName d with
+      | .error e => showSynErr e
+      | .ok f => showFile f)
+  | "format", [d] => do
+    let d ← hx d
+    pure (match parse fileName d with
+      | .error e => showSynErr e
+      | .ok f => "ok " ++ xh (format f))
+  | "reformat", [d] => do
+    let d ← hx d
+    pure (match parse fileName d with
+      | .error e => showSynErr e
+      | .ok f =>
+        match parse fileName (format f) with
+        | .error e => "second-" ++ showSynErr e
+        | .ok f2 => "ok " ++ xh (format f2))
+  | "parse", [fx, d] => do
+    let fx ← fixOf fx
+    let d ← hx d
+    pure (match parseToFile fileName d fx true with
+      | .error es => showRuleErrs es
+      | .ok f => showTypedFile f)
+  | "parselax", [fx, d] => do
+    let fx ← fixOf fx
+    let d ← hx d
+    pure (match parseToFile fileName d fx false with
+      | .error es => showRuleErrs es
+      | .ok f => showTypedFile f)
+  | "parsework", [fx, d] => do
+    let fx ← fixOf fx
+    let d ← hx d
+    pure (match parseWork fileName d fx with
+      | .error es => showRuleErrs es
+      | .ok f => showWorkFile f)
+  | "modulepath", [d] => do let d ← hx d; pure (xh (modulePath d))
+  | "autoquote", [s] => do let s ← hx s; pure (s!"{showBool (mustQuote s)} {xh (autoQuote s)}")
+  | "isdirpath", [s] => do let s ← hx s; pure (showBool (isDirectoryPath s))
+  | "goversionre", [s] => do
+    let s ← hx s
+    pure (s!"{showBool (goVersionRE s)} {match laxGoVersionRE s with | none => "nomatch" | some m => xh m}")
+  | "toolchainre", [s] => do let s ← hx s; pure (showBool (toolchainRE s))
+  | "deprecatedre", [s] => do
+    let s ← hx s
+    pure (match deprecatedRE s with | none => "nomatch" | some m => xh m)
+  | "unquote", [s] => do
+    let s ← hx s
+    pure (match Quote.unquote s with | none => "err" | some t => "ok " ++ xh t)
+  | "quote", [s] => do let s ← hx s; pure (xh (Quote.quote s))
+  | "trimspace", [s] => do let s ← hx s; pure (xh (GoStrings.trimSpace s))
+  | "fields", [s] => do let s ← hx s; pure (xhList (GoStrings.fields s))
+  | "isprint", [r] => do
+    let r ← r.toNat?
+    pure (s!"{showBool (UnicodePrint.isPrint r)} {showBool (UnicodePrint.isSpace r)}")
   | _, _ => none
 
 end ModVerif.Drv.Modfile
